@@ -5,6 +5,7 @@ import json
 import logging
 import os
 import shutil
+import struct
 from fractions import Fraction
 
 import kv
@@ -20,22 +21,24 @@ CASE_TIMEOUT = 60
 SEARCH_CAP = 150
 RULE = ('one case = a kapture dataset built with the real kapture classes (1-6 images in 10 directory layouts, 1-3 cameras of every '
         'kapture model, poses from 9 quaternion families incl. exact and near 180 degree turns, non-unit and integer quaternions, '
-        '0-13 points, observations (a third of the tracks see a point 2-3 times in one image), matches in both orientations, keypoints/descriptors files) + a configuration (flatten, '
+        '0-13 points, observations (a third of the tracks see a point 2-3 times in one image), matches in both orientations, keypoints (0, 1 or 2-6 rows of 4-6 float32 columns incl. rounding ties)/descriptors files) + a configuration (flatten, '
         'intrinsics layout v1/v2, image transfer actions); the real export_openmvg then import_openmvg run in scratch '
-        'directories; the exported sfm_data / regions / matches file AND the re-imported dataset (as loaded by kapture_from_dir) '
-        'are compared with the Coq model. Non-trivial = at least 2 images and (points or matches); distinct = distinct case JSON.')
+        'directories; the exported sfm_data / regions (every .feat line) / matches file AND the re-imported dataset (as loaded by '
+        'kapture_from_dir, keypoint arrays included) are compared with the Coq model. Non-trivial = at least 2 images and (points or matches); distinct = distinct case JSON.')
 TRUSTED = ['numpy-quaternion from_rotation_matrix: Section variable from_matrix with contract  rot (from_matrix M) == M  for '
            'M*M^T == I, det M == 1 (Proofs/POpenmvg.v, Section Roundtrip); sampled on every posed image of every case '
            '(check_case compares rot(observed quaternion) with the exported matrix to 1e-9)',
            'numpy-quaternion as_rotation_matrix and PoseTransform.inverse are modelled by MQV.rot / MPose.inverse over Q (their '
            '1e-14 unit-norm shortcut is inside the 1e-9 tolerance); IEEE rounding is not modelled',
+           'printf %10.5f is modelled as round-half-even of the exact value to 5 decimals (MOpenmvg.round5); reading a decimal back as '
+           'a double is not modelled (1e-9)',
            'json, numpy savetxt/loadtxt, kapture csv layer (kapture_to_dir / kapture_from_dir) and the file system are exercised, '
            'not modelled; os.path.commonpath/relpath/basename/splitext are modelled on path components / byte strings']
 ASSUMPTIONS = ['in range = every image has a pose with a non-zero quaternion, its camera is SIMPLE_PINHOLE / SIMPLE_RADIAL / RADIAL, '
                'or PINHOLE / OPENCV with fx = fy, or FULL_OPENCV with fx = fy and k4 = k5 = k6 = 0, integral width/height; image '
                'names are distinct clean relative paths; with flattening the flattened names are distinct; region file stems '
                '(basename without extension of the exported view) are distinct; observations refer to existing points, images '
-               'with keypoints and existing features; an image pair is matched in one orientation only; regions and matches are '
+               'with keypoints and existing features; keypoints have at least 4 columns (x, y, scale, orientation); an image pair is matched in one orientation only; regions and matches are '
                'exported and imported together with sfm_data',
                'point colours are not representable in sfm_data JSON (only X is written): only coordinates are compared',
                'the keypoints type name changes to the OpenMVG region type name (SIFT_Regions); not judged',
@@ -185,6 +188,35 @@ CAMS_OUT = ['PINHOLE_fxfy', 'OPENCV_fxfy', 'FULL_OPENCV_k456', 'OPENCV_FISHEYE',
             'UNKNOWN_CAMERA', 'fractional_size']
 
 
+def _f32(x):
+    return struct.unpack('f', struct.pack('f', x))[0]
+
+
+def _gen_kp_row(rng, i, dsize):
+    """one keypoint of image number i as float32 values: the integer part of the first column tells the image;
+    values include exact ties of the 5-decimal rounding (odd multiples of 1/64), negative and large numbers"""
+    def val():
+        kind = rng.choice(['tie', 'gauss', 'gauss', 'int', 'small', 'big'])
+        if kind == 'tie':
+            return rng.choice([-1, 1]) * (2 * rng.randrange(0, 2000) + 1) / 64.0
+        if kind == 'int':
+            return float(rng.randint(-2000, 4000))
+        if kind == 'small':
+            return rng.uniform(-1e-4, 1e-4)
+        if kind == 'big':
+            return rng.uniform(-1, 1) * 1e5
+        return rng.gauss(0, 300)
+    first = i + rng.choice([0.0, 0.5, 1 / 64.0, 33 / 64.0, rng.uniform(0, 0.9)])
+    return [_f32(first)] + [_f32(val()) for _ in range(dsize - 1)]
+
+
+def _kps_of(case):
+    """keypoint rows of every image (cases recorded before the rows were generated: the former fixed pattern)"""
+    if 'kps' in case:
+        return case['kps'], case.get('kp_dsize', 4)
+    return [[[i + 0.5, float(r), 0.0, 0.0] for r in range(case['nkp'][i])] for i in range(len(case['images']))], 4
+
+
 def _gen_case(rng, stream):
     layout = rng.choice(LAYOUTS)
     if stream == 'collision':
@@ -219,7 +251,15 @@ def _gen_case(rng, stream):
         if sum(1 for im in images if im['ts'] == images[k]['ts']) == 1:
             images[k]['q'] = None      # whole timestamp absent from the trajectories
             images[k]['t'] = None
-    nkp = [4 + (i % 3) for i in range(n)]
+    # keypoints: 0, 1 (a one-line .feat file) or several per image; 4 columns (SIFT) or more (only the first four are
+    # exported); stream 'kp_narrow': fewer than four columns (not SIFT-like: out of range, the importer refuses)
+    sparse = rng.random() < 0.5         # half of the datasets have images with no or a single keypoint
+    nkp = [rng.choice([0, 1, 1, 2, 4, 5, 6] if sparse else [2, 3, 4, 5, 6]) for i in range(n)]
+    kp_dsize = rng.choice([4, 4, 4, 5, 6])
+    if stream == 'kp_narrow':
+        kp_dsize = rng.choice([2, 3])
+        nkp = [max(1, k) for k in nkp]
+    kps = [[_gen_kp_row(rng, i, kp_dsize) for _ in range(nkp[i])] for i in range(n)]
     pts_mode = rng.choice(['none', 'empty', 'few', 'few', 'many'])
     if pts_mode == 'none':
         points = None
@@ -234,9 +274,11 @@ def _gen_case(rng, stream):
         for p in range(len(points)):
             if rng.random() < 0.75:
                 for i in rng.sample(range(n), rng.randint(1, n)):
+                    if nkp[i] == 0:
+                        continue
                     # a point may be observed several times in ONE image (a kapture observation list is a
                     # multiset of (image, feature)): 2-3 distinct features of the same image for ~1/3 of the tracks
-                    k = rng.choice([1, 1, 2, 3])
+                    k = min(nkp[i], rng.choice([1, 1, 2, 3]))
                     for f in rng.sample(range(nkp[i]), k):
                         obs.append([p, i, f])
     matches = []
@@ -247,7 +289,8 @@ def _gen_case(rng, stream):
             lo, hi = (a, b) if names[a] < names[b] else (b, a)
             if rng.random() < 0.25:
                 lo, hi = hi, lo        # stored against the lexical convention
-            matches.append([lo, hi, [[rng.randrange(nkp[lo]), rng.randrange(nkp[hi])] for _ in range(rng.randint(0, 4))]])
+            npairs = rng.randint(0, 4) if nkp[lo] and nkp[hi] else 0
+            matches.append([lo, hi, [[rng.randrange(nkp[lo]), rng.randrange(nkp[hi])] for _ in range(npairs)]])
     cfg = {'flatten': rng.random() < 0.5, 'v2': rng.random() < 0.5,
            'exp_action': rng.choice(['skip', 'skip', 'copy', 'link_absolute', 'link_relative']),
            'imp_action': rng.choice(['skip', 'skip', 'copy', 'link_absolute', 'link_relative']),
@@ -257,8 +300,8 @@ def _gen_case(rng, stream):
         matches = matches[:1]          # which of two merged pairs survives depends on set iteration order
     if cfg['exp_action'] == 'skip' and cfg['flatten']:
         cfg['imp_action'] = 'skip'     # nothing was materialised under the flattened names
-    return {'stream': stream, 'layout': layout, 'cams': cams, 'images': images, 'nkp': nkp, 'points': points, 'obs': obs,
-            'matches': matches, 'cfg': cfg}
+    return {'stream': stream, 'layout': layout, 'cams': cams, 'images': images, 'nkp': nkp, 'kp_dsize': kp_dsize, 'kps': kps,
+            'points': points, 'obs': obs, 'matches': matches, 'cfg': cfg}
 
 
 def gen_cases(rng, tier):
@@ -276,8 +319,8 @@ def gen_cases(rng, tier):
             cases.append(c)
     for _ in range(n_main - len(cases) if tier == 'quick' else n_main):
         cases.append(_gen_case(rng, 'main'))
-    for stream in ('cams_out', 'unposed', 'collision', 'refused'):
-        for _ in range(n_side if stream != 'refused' else max(2, n_side // 3)):
+    for stream in ('cams_out', 'unposed', 'collision', 'refused', 'kp_narrow'):
+        for _ in range(n_side if stream not in ('refused', 'kp_narrow') else max(3, n_side // 3)):
             cases.append(_gen_case(rng, stream))
     return cases
 
@@ -296,7 +339,8 @@ def _build_dataset(case, root):
         k.sensors[cid] = kapture.Camera(ctype, list(params))
     k.records_camera = kapture.RecordsCamera()
     k.trajectories = kapture.Trajectories()
-    k.keypoints = {'sift': kapture.Keypoints('SIFT', np.float32, 4)}
+    kps, dsize = _kps_of(case)
+    k.keypoints = {'sift': kapture.Keypoints('SIFT', np.float32, dsize)}
     k.descriptors = {'sift': kapture.Descriptors('SIFT', np.uint8, 128, 'sift', 'L2')}
     for i, im in enumerate(case['images']):
         k.records_camera[(im['ts'], im['cam'])] = im['name']
@@ -309,9 +353,7 @@ def _build_dataset(case, root):
         nkp = case['nkp'][i]
         k.keypoints['sift'].add(im['name'])
         k.descriptors['sift'].add(im['name'])
-        kp = np.zeros((nkp, 4), dtype=np.float32)
-        kp[:, 0] = i + 0.5              # first column identifies the image the keypoints came from
-        kp[:, 1] = np.arange(nkp)
+        kp = np.array(kps[i], dtype=np.float32).reshape(nkp, dsize)   # integer part of column 0 = image number
         image_keypoints_to_file(get_keypoints_fullpath('sift', root, im['name']), kp)
         image_descriptors_to_file(get_descriptors_fullpath('sift', root, im['name']),
                                   np.full((nkp, 128), i, dtype=np.uint8))
@@ -362,13 +404,15 @@ def _read_sfm(mvg):
         structure = [{'key': e['key'], 'X': e['value']['X'],
                       'obs': [[o['key'], o['value']['id_feat']] for o in e['value']['observations']]}
                      for e in sfm['structure']]
-    regions = {}
+    regions, feats = {}, {}
     rdir = os.path.join(mvg, 'regions')
     if os.path.isdir(rdir):
         for fn in sorted(os.listdir(rdir)):
             if fn.endswith('.feat'):
-                arr = np.loadtxt(os.path.join(rdir, fn), ndmin=2)
-                regions[fn[:-5]] = int(arr[0, 0]) if arr.shape[0] else -1
+                with open(os.path.join(rdir, fn)) as f:
+                    rows = [[float(x) for x in ln.split()] for ln in f.read().split('\n') if ln.strip()]
+                feats[fn[:-5]] = rows
+                regions[fn[:-5]] = int(rows[0][0]) if rows else -1
     matches = []
     mfile = os.path.join(mvg, 'matches', 'matches.f.txt')
     if os.path.isfile(mfile):
@@ -380,7 +424,7 @@ def _read_sfm(mvg):
             matches.append([i, j, [[int(x) for x in lines[p + 2 + r].split()] for r in range(cnt)]])
             p += 2 + cnt
     return {'root_base': os.path.basename(sfm['root_path']), 'intrinsics': intr, 'views': views, 'extrinsics': ext,
-            'structure': structure, 'regions': regions, 'matches': matches}
+            'structure': structure, 'regions': regions, 'feats': feats, 'matches': matches}
 
 
 def _read_dataset(out):
@@ -391,7 +435,7 @@ def _read_dataset(out):
                                      image_matches_from_file)
     from kapture.io.records import get_image_fullpath
     k = kcsv.kapture_from_dir(out)
-    res = {'images': [], 'cams': {}, 'poses': [], 'points': None, 'obs': [], 'kp': {}, 'matches': [], 'files': {},
+    res = {'images': [], 'cams': {}, 'poses': [], 'points': None, 'obs': [], 'kp': {}, 'kprows': {}, 'matches': [], 'files': {},
            'kp_types': sorted(k.keypoints.keys()) if k.keypoints else []}
     for ts, cid, name in kapture.flatten(k.records_camera or {}, is_sorted=True):
         res['images'].append({'ts': ts, 'cam': cid, 'name': name})
@@ -418,6 +462,7 @@ def _read_dataset(out):
             for name in kps:
                 arr = image_keypoints_from_file(get_keypoints_fullpath(kt, out, name), kps.dtype, kps.dsize)
                 res['kp'][name] = int(arr[0, 0]) if arr.shape[0] else -1
+                res['kprows'][name] = [[float(x) for x in row] for row in arr]
     if k.matches:
         for kt, ms in k.matches.items():
             for a, b in ms:
@@ -524,7 +569,10 @@ def in_range(case):
     if len(set(rel)) != len(rel):
         return False
     stems = [os.path.splitext(os.path.basename(r))[0] for r in rel]
-    return len(set(stems)) == len(stems)
+    if len(set(stems)) != len(stems):
+        return False
+    kps, _ = _kps_of(case)
+    return all(len(row) >= 4 for rows in kps for row in rows)      # SIFT-like: x, y, scale, orientation
 
 
 def oracle(case, obs):
@@ -571,6 +619,19 @@ def oracle(case, obs):
         if case['cfg']['exp_action'] != 'skip' and case['cfg']['imp_action'] != 'skip':
             if out['files'].get(rec['name']) != 'image-bytes-of:' + im['name']:
                 return 'image file content not transferred to the re-imported dataset'
+    kps, _ = _kps_of(case)
+    for i in range(len(case['images'])):
+        # the feature ids of observations and matches denote the same keypoints: same number, same order, the four
+        # OpenMVG columns to the 5 decimals of a regions text file
+        rows1 = out.get('kprows', {}).get(newname[i])
+        if rows1 is None:
+            return 'an image lost its keypoints'
+        if len(rows1) != len(kps[i]):
+            return 'number of keypoints of an image changed'
+        for r0, r1 in zip(kps[i], rows1):
+            if len(r1) != 4 or any(abs(_fr(a) - _fr(b)) > Fraction(5, 10 ** 6) + TOL * max(Fraction(1), abs(_fr(a)))
+                                   for a, b in zip(r0[:4], r1)):
+                return 'keypoint values changed by more than the 5 decimals of a regions file'
     pts0 = [p[:3] for p in (case['points'] or [])]
     pts1 = out['points'] or []
     if pts0 != pts1:
@@ -649,7 +710,7 @@ def encode_dataset(case):
     points = 'None' if case['points'] is None else '(Some %s)' % kv.clist(_cvec(p[:3]) for p in case['points'])
     obs = kv.clist('(%s, %s)' % (kv.cz(p), kv.clist('(%s, %s)' % (_cpath(nm[i]), kv.cz(f)) for i, f in l))
                    for p, l in _group(case['obs'])) if case['points'] is not None else '[]'
-    kp = kv.clist('(%s, %s)' % (_cpath(n), kv.cz(i)) for i, n in enumerate(nm))
+    kp = kv.clist('(%s, %s)' % (_cpath(n), kv.cz(i if case['nkp'][i] else -1)) for i, n in enumerate(nm))   # token
     ms = kv.clist('((%s, %s), %s)' % (_cpath(nm[a]), _cpath(nm[b]), kv.clist('(%s, %s)' % (kv.cz(x), kv.cz(y)) for x, y in pr))
                   for a, b, pr in case['matches'])
     return '(mkData %s %s %s %s %s %s %s)' % (cams, images, poses, points, obs, kp, ms)
@@ -693,12 +754,20 @@ def _encode_out(o):
     return '(mkK %s %s %s %s %s %s %s)' % (cams, images, poses, points, obs, kp, ms)
 
 
+def _crows(rows):
+    return kv.clist(kv.clist(kv.cq(x) for x in row) for row in rows)
+
+
 def encode(case, obs):
+    kps, _ = _kps_of(case)
+    k_feats = kv.clist('(%s, %s)' % (_cpath(im['name']), _crows(kps[i])) for i, im in enumerate(case['images']))
+    o_feats = kv.clist('(%s, %s)' % (kv.cstr(k), _crows(r)) for k, r in sorted(((obs['sfm'] or {}).get('feats') or {}).items()))
+    o_kps = kv.clist('(%s, %s)' % (_cpath(n), _crows(r)) for n, r in sorted(((obs['out'] or {}).get('kprows') or {}).items()))
     cfg = '(mkCfg %s %s %s)' % (kv.cbool(case['cfg']['flatten']), kv.cbool(case['cfg']['v2']), kv.cstr(_effective_root(case)))
-    return '(mkCase %s %s %s %s %s)' % (
-        cfg, encode_dataset(case), kv.cbool(model_in_range(case)),
-        kv.copt(_encode_sfm(obs['sfm']) if obs['sfm'] is not None else None),
-        kv.copt(_encode_out(obs['out']) if obs['out'] is not None else None))
+    return '(mkCase %s %s %s %s %s %s %s %s)' % (
+        cfg, encode_dataset(case), k_feats, kv.cbool(model_in_range(case)),
+        kv.copt(_encode_sfm(obs['sfm']) if obs['sfm'] is not None else None), o_feats,
+        kv.copt(_encode_out(obs['out']) if obs['out'] is not None else None), o_kps)
 
 
 def model_in_range(case):
@@ -718,8 +787,11 @@ def nontrivial(case, obs):
 
 
 def classify(case, obs):
-    return '%s/%s/%s%s/%s' % (case['stream'], case['layout'], 'flat' if case['cfg']['flatten'] else 'tree',
-                              '-v2' if case['cfg']['v2'] else '-v1', obs['outcome'].split(':')[0])
+    kps, dsize = _kps_of(case)
+    fewest = min(len(r) for r in kps) if kps else 0
+    return '%s/%s/%s%s/kp%s-d%d/%s' % (case['stream'], case['layout'], 'flat' if case['cfg']['flatten'] else 'tree',
+                                        '-v2' if case['cfg']['v2'] else '-v1', 'min0' if fewest == 0 else 'min1' if fewest == 1 else 'min2+',
+                                        dsize, obs['outcome'].split(':')[0])
 
 
 def describe(case, obs):
@@ -739,6 +811,8 @@ def shrink(case):
         c = dict(case)
         c['images'] = [case['images'][i] for i in keep]
         c['nkp'] = [case['nkp'][i] for i in keep]
+        if 'kps' in case:
+            c['kps'] = [case['kps'][i] for i in keep]
         c['obs'] = [[p, ren[i], f] for p, i, f in case['obs'] if i in ren]
         c['matches'] = [[ren[a], ren[b], pr] for a, b, pr in case['matches'] if a in ren and b in ren]
         usedc = {im['cam'] for im in c['images']}
@@ -765,9 +839,10 @@ TECHNIQUE = ('Coq proof over Q (field identities of MQV/PQV for t = -R(-R^T t), 
 LEVEL_TEXT = ('Theorems in coq/Props/C14.v hold for every dataset and configuration satisfying the boolean in_range: the '
               're-imported image list is the original one renamed (shared directory replaced by the image-root name, optionally '
               'flattened), every image keeps its pose as a rotation and translation, its intrinsics as a projection function, '
-              'points, observations, keypoints and the matching relation are preserved. The model is tied to the code by running '
+              'points, observations, keypoints and the matching relation are preserved; for every list of keypoints the regions file '
+              'keeps the rows in order to 5e-6 (any number of rows); the result does not depend on the intrinsics layout. The model is tied to the code by running '
               'the real export_openmvg and import_openmvg and comparing both the exported files and the re-imported dataset with '
               'the model inside Coq.')
 LEVEL_NOTE = ('partial: JSON, numpy text I/O, the kapture csv layer and the quaternion library are trusted and only exercised '
               '(from_rotation_matrix is a Section variable whose contract is sampled on every pose); IEEE rounding is not '
-              'modelled (1e-9 tolerance); rigs, point colours, keypoint file contents and image file transfer are outside the model.')
+              'modelled (1e-9 tolerance); rigs, point colours, descriptor file contents and image file transfer are outside the model.')
